@@ -1,6 +1,5 @@
 \* spec mutant: the mechanism variant "wrap_glom_only" (see GlomErrors.tla) must violate a law
 CONSTANTS
-  Fix = TRUE
   Mutant = "wrap_glom_only"
   MinDepth = 0
   MaxDepth = 1
